@@ -21,7 +21,7 @@ M1_ALPH = ALPH14 + '|=1.'
        note='documents of k characters over the 18-character alphabet, normalize_whitespace symbolic: same HTML and link definitions after the round trip; rendering the result again reproduces it byte for byte')
 def m1_tiny(c1: int, c2: int, c3: int, nw: bool) -> bool:
     """
-    pre: all_in(M1_ALPH, P('k'), c1, c2, c3) and fixed(c1, 'c1')
+    pre: fixed(c1, 'c1') and all_in(M1_ALPH, P('k'), c1, c2, c3)
     post: _
     """
     import mistletoe
@@ -43,7 +43,7 @@ def m1_tiny(c1: int, c2: int, c3: int, nw: bool) -> bool:
 M2_ALPH = 'a *_`[]()\\'
 
 
-@lemma('M2.inline', 'C09', quick=[{'k': 1}, {'k': 2}] + by('c1', list('*`['), [{'k': 3}]),
+@lemma('M2.inline', 'C09', quick=[{'k': 1}, {'k': 2}] + by('c1', list('*`['), by('c2', list(M2_ALPH), [{'k': 3}])),
        thorough=[{'k': 1}, {'k': 2}] + by('c1', list(M2_ALPH), [{'k': 3}, {'k': 4, 'timeout': 5000}]), timeout=900, per_path=90,
        covers=['markdown_renderer.py:MarkdownRenderer.span_to_lines', 'markdown_renderer.py:MarkdownRenderer.make_fragments',
                'markdown_renderer.py:MarkdownRenderer.fragments_to_lines', 'markdown_renderer.py:MarkdownRenderer.embed_span',
@@ -51,7 +51,7 @@ M2_ALPH = 'a *_`[]()\\'
        note='inline strings of k characters over {a, space, *, _, `, [, ], (, ), backslash}: the fragments reproduce the source byte for byte (no wrapping)')
 def m2_inline(c1: int, c2: int, c3: int, c4: int) -> bool:
     """
-    pre: all_in(M2_ALPH, P('k'), c1, c2, c3, c4) and fixed(c1, 'c1')
+    pre: fixed(c1, 'c1') and fixed(c2, 'c2') and all_in(M2_ALPH, P('k'), c1, c2, c3, c4)
     post: _
     """
     from mistletoe import span_token, token as tokmod, block_token
@@ -131,14 +131,14 @@ NORMAL_FORMS = {
 }
 
 
-@lemma('M4.normal-form', 'C09', quick=[{'sk': s} for s in sorted(NORMAL_FORMS)], timeout=900, per_path=120,
+@lemma('M4.normal-form', 'C09', quick=[{'sk': s, 'nw': n} for s in sorted(NORMAL_FORMS) for n in (False, True)], timeout=900, per_path=120,
        covers=['markdown_renderer.py:MarkdownRenderer.render', 'markdown_renderer.py:MarkdownRenderer.render_quote',
                'markdown_renderer.py:MarkdownRenderer.render_list_item', 'markdown_renderer.py:MarkdownRenderer.render_fenced_code_block',
                'markdown_renderer.py:MarkdownRenderer.render_setext_heading', 'markdown_renderer.py:MarkdownRenderer.render_link_reference_definition_block'],
        note='documents already in the renderer normal form with one inert word (two symbolic lower-case letters), normalize_whitespace symbolic: reproduced byte for byte')
 def m4_normal_form(a: int, b: int, nw: bool) -> bool:
     """
-    pre: 97 <= a <= 122 and 97 <= b <= 122
+    pre: fixed(nw, 'nw') and 97 <= a <= 122 and 97 <= b <= 122
     post: _
     """
     import mistletoe
